@@ -481,6 +481,9 @@ def strat_copula_chain(draw, tier):
     case = draw(strat_copula(tier))
     # finite variation only here (constructor cost)
     case["us"] = draw(st.lists(st.floats(0, 1, exclude_max=True), min_size=2, max_size=8))
+    # another chain (same margins, another copula) sampled on an equal grid earlier in the same process: samplers are
+    # independent objects, whatever was computed for one must not show in the other
+    case["earlier_sampler"] = draw(st.booleans())
     return case
 
 
@@ -573,6 +576,18 @@ def body_copula_chain(case):
         def f_of(sampler):
             high = float(sampler.uniform.high)  # the sampler draws its uniforms in [0, sum of bucket probabilities)
             return lambda u: tuple(int(c) for c in sampler.sample_with_us(np.array([u * high], dtype=float))[0])
+    if case.get("earlier_sampler"):
+        import copy as _copy
+
+        # (a copula with mass off the axes, so that the other sampler bisects the same off-axis boxes)
+        c0 = case["copula"]
+        other = {"type": "clayton", "theta": 2 * c0["theta"] + 0.5, "eta": 0.9 if c0["eta"] < 0.5 else 0.1} \
+            if c0["type"] == "clayton" else {"type": "clayton", "theta": 1.0, "eta": 0.5}
+        model2 = build_copula_model({"margins": case["margins"], "copula": other})
+        proc2 = MarkovChainLevyCopula(levy_copula_model=model2, grid=_copy.deepcopy(grid), method=SamplingMethod[method])
+        f2 = f_of(proc2.sampling)
+        for j in range(64):
+            f2((j + 0.5) / 64)
     f = f_of(smp)
 
     def valid(s):
@@ -611,7 +626,8 @@ def body_copula_chain(case):
 
 def classify_copula_chain(case):
     d = len(case["margins"])
-    return [f"d={d}", case["method"], case["copula"]["type"], case["grid"]["type"]], True
+    return [f"d={d}", case["method"], case["copula"]["type"], case["grid"]["type"],
+            "after-another-sampler" if case.get("earlier_sampler") else "first-sampler"], True
 
 
 # ----------------------------------------------------------------------------- (c) histories on one sampler
@@ -697,7 +713,7 @@ SUBCHECKS = [
     SubCheck("copula-chain-samplers", body_copula_chain, classify_copula_chain,
              rule="copula chains d=2,3 (finite variation) x {INVERSION, adapted tree}: measured law vs cell "
                   "rate / intensity for every state, edge uniforms, history independence",
-             strategy=strat_copula_chain, budget={"quick": 64, "thorough": 640},
+             strategy=strat_copula_chain, budget={"quick": 128, "thorough": 640},
              shards={"quick": 16, "thorough": 16}),
     SubCheck("histories", body_history, classify_history,
              rule="operation sequences (draw u, repeat an earlier u, draw beyond everything cached, batch) on "
